@@ -31,6 +31,9 @@ MODEL_MAP = [
      'coq': 'Model.SdrIO.get_chunk/reserve/get_sdr (store DevSdr)'},
     {'python': 'pyipmi/sdr.py:Sdr.sdr_repository_entries/get_repository_sdr_list; pyipmi/sensor.py:device_sdr_entries/get_device_sdr_list',
      'coq': 'Model.SdrIO.entries_loop/sdr_entries'},
+    {'python': 'pyipmi/sdr.py:Sdr.get_repository_sdr/get_repository_sdr_list; pyipmi/sensor.py:Sensor.get_device_sdr/get_device_sdr_list '
+               '(SdrCommon.from_data on the fetched bytes, next_id attached)',
+     'coq': 'Model.SdrE2E.get_sdr_obj/entries_obj_loop/sdr_list_obj (composition with Model.SdrParse.sdr_from_data of C16)'},
     {'python': 'pyipmi/__init__.py:Ipmi.send_message/send_message_with_name', 'coq': 'Model.SdrIO.send_msg_loop/send_message/reserve'},
     {'python': 'pyipmi/msgs/sdr.py:GetSdrReq/GetSdrRsp/ReserveSdrRepositoryRsp; pyipmi/msgs/sensor.py:GetDeviceSdrReq/...Rsp',
      'coq': 'Model.SdrIO.get_req/reserve_req/dec_get_rsp/dec_reserve_rsp'},
@@ -140,6 +143,8 @@ def exc_name(e):
 
 
 def c_err(name):
+    if name.startswith('coq:(Err '):
+        return name[len('coq:(Err '):-1]
     if name == 'AttributeError':
         return '(OtherError AttributeError)'
     return C.c_err(name)
@@ -192,24 +197,43 @@ def run_op(scn, conn=None):
             r['sleeps'] += sleeps[s0:]
         return res
 
+    def obj_view(o):
+        from . import c16 as P
+        return [P.coq_obs(P.observe_obj(o)), getattr(o, 'next_id', None), bytes(o.data.array).hex()]
+
     def go():
         if scn['op'] == 'walks':
             return walks()
+        if scn['op'] == 'get_obj':          # the parsed object itself, every attribute (end-to-end stage)
+            fn = ipmi.get_repository_sdr if store == 'repo' else ipmi.get_device_sdr
+            o = fn(scn['rid'], resv)
+            LAST_OBJS[:] = [o]
+            return {'view': obj_view(o)}
+        if scn['op'] == 'list_obj':
+            fn = ipmi.get_repository_sdr_list if store == 'repo' else ipmi.get_device_sdr_list
+            objs = fn()
+            LAST_OBJS[:] = objs
+            return {'view': [obj_view(o) for o in objs]}
         if scn['op'] == 'get':
             fn = ipmi.get_repository_sdr if store == 'repo' else ipmi.get_device_sdr
             s = fn(scn['rid'], resv)
             return (getattr(s, 'next_id', 0), bytes(s.data.array).hex())
         fn = ipmi.get_repository_sdr_list if store == 'repo' else ipmi.get_device_sdr_list
         return [(s.next_id, bytes(s.data.array).hex()) for s in fn()]
+    LAST_OBJS[:] = []
     with fake_sleep(sleeps):
         try:
             out = ('ok', go())
         except Exception as e:  # noqa
             out = ('err', exc_name(e))
+            if scn['op'] in ('get_obj', 'list_obj') and out[1] == 'OtherError':
+                from . import c16 as P
+                out = ('err', 'coq:' + P.exc_term(e))
     OPLOG.append(dict(scn, conn=scn.get('conn', 'new')))
     return dev, list(itf.log), sleeps, out, resv
 
 
+LAST_OBJS = []      # the parsed objects returned by the last get_obj / list_obj operation (for the oracle)
 OPLOG = []          # every operation executed in this process, in order (for history replays)
 
 
@@ -254,6 +278,19 @@ def term(scn, dev, log, sleeps, out, resv):
     reps = C.c_list([fakeif.c_reply(x) for x in log])
     sl = C.c_list([C.c_N(x) for x in sleeps])
     st = 'Repo' if scn['store'] == 'repo' else 'DevSdr'
+    if scn['op'] in ('get_obj', 'list_obj'):
+        def c_view(v):
+            return '(%s, %s)' % (v[0], C.c_opt(None if v[1] is None else C.c_N(v[1])))
+        if out[0] != 'ok':
+            exp = '(Err %s)' % c_err(out[1])
+        elif scn['op'] == 'get_obj':
+            exp = '(Ok %s)' % c_view(out[1]['view'])
+        else:
+            exp = '(Ok %s)' % C.c_list([c_view(v) for v in out[1]['view']])
+        if scn['op'] == 'get_obj':
+            return 'chk_get_obj %s %s %d %s %s %s %s %s' % (dev.init, st, scn['rid'], C.c_opt(None if resv is None else C.c_N(resv)),
+                                                           reqs, reps, sl, exp)
+        return 'chk_list_obj %s %s %s %s %s %s' % (dev.init, st, reqs, reps, sl, exp)
     if scn['op'] == 'get':
         exp = '(Ok %s)' % c_rec(out[1]) if out[0] == 'ok' else '(Err %s)' % c_err(out[1])
         return 'chk_get %s %s %d %s %s %s %s %s' % (dev.init, st, scn['rid'], C.c_opt(None if resv is None else C.c_N(resv)),
@@ -332,10 +369,50 @@ def must_complete(scn, log):
     return '+'.join(kinds)
 
 
+def oracle_objs(scn, log, out):
+    """end to end: the object(s) handed to the caller show the attributes that the C16 specification
+    encoder put into the device's record(s) (expected view of harness/c16.py, independent of both
+    models), carry exactly the device's bytes and the successor id"""
+    from . import c16 as P
+    store = scn['store']
+    for x in log:
+        if x.netfn != NETFN[store]:
+            return 'Sdr._get_sdr_chunk:reservation-of-other-store', 'a request went to netfn 0x%02x' % x.netfn
+    recs = [bytes.fromhex(r) for r in scn[store]]
+    want = want_list(recs)
+    specs = scn['specs']
+    if out[0] != 'ok':
+        kind = must_complete(scn, log)
+        clean = not any(tuple(f)[0] != 'none' for f in scn['plan'])
+        if (clean or kind) and all(sp is not None for sp in specs) and scn.get('rid') != 0x7777:
+            return 'sdr-object:not-returned', 'ends with %s although every record is a well-formed encoding' % (out[1],)
+        return None
+    if scn['op'] == 'get_obj':
+        k = 0 if scn['rid'] == 0 else [r[0] | r[1] << 8 for r in recs].index(scn['rid'])
+        pairs = [(k, out[1]['view'], LAST_OBJS[0] if LAST_OBJS else None)]
+    else:
+        if len(out[1]['view']) != len(recs):
+            return 'sdr_entries:list-incomplete', 'listed %d objects, device holds %d records' % (len(out[1]['view']), len(recs))
+        pairs = [(k, v, LAST_OBJS[k] if len(LAST_OBJS) > k else None) for k, v in enumerate(out[1]['view'])]
+    for k, view, obj in pairs:
+        if view[2] != recs[k].hex():
+            return 'get_sdr_data_helper:altered-record-data', 'object %d carries bytes that differ from the device content' % k
+        if view[1] != want[k][0]:
+            return 'get_sdr_data_helper:wrong-next-id', 'object %d: next id %r, device says %r' % (k, view[1], want[k][0])
+        if specs[k] is not None and obj is not None:
+            d = P.attempt_cmp(specs[k], obj)
+            if d:
+                return ('sdr-object:attribute-differs', 'record %d (%s) read through the Ipmi object: attribute %s is %r, encoded %r'
+                        % (k, specs[k]['kind'], d[0], d[1], d[2]))
+    return None
+
+
 def oracle(scn, dev, log, out):
     """returns (key, message) or None"""
     if scn['op'] == 'walks':
         return oracle_walks(scn, log, out)
+    if scn['op'] in ('get_obj', 'list_obj'):
+        return oracle_objs(scn, log, out)
     store = scn['store']
     for x in log:
         if x.netfn != NETFN[store]:
@@ -379,6 +456,8 @@ def oracle_resv(scn, log, resv):
     (0xC3 / 0xCE / raised node-busy); otherwise (first request of a chunk) the reservation the operation was
     given / obtained at its start, or the one it most recently renewed to.  Never a value remembered from an
     earlier operation."""
+    if scn['op'] in ('get_obj', 'list_obj'):
+        scn = dict(scn, op=scn['op'][:-4])
     if scn['op'] == 'walks':
         return None          # judged per generator by oracle_walks (walks of one store cancel each other by design)
     store = scn['store']
@@ -699,6 +778,34 @@ def run(ctx):
                 case(dict(base, plan=[('none',)] * i + [('cancel',)]), 'list cancel@index')
                 if i % 3 == 0:
                     case(dict(base, plan=[('none',)] * i + [('code', rng.choice([0xC3, 0xCE]))]), 'list code@index')
+    # E2E. records of every parsed kind (encoded by the specification encoder of C16) read through the real Ipmi
+    # object: the parsed objects (every attribute) against the composed model get_sdr_obj / sdr_list_obj
+    from . import c16 as P
+    kinds = list(P.FIELDS)
+    for rep in range(14 if q else 120):
+        ids = rng.sample(range(1, 0xFFFE), 4)
+        specs = []
+        for i in ids:
+            sp = P.gen_spec(rng, kinds[(rep + len(specs)) % len(kinds)])
+            sp['hdr'][0] = i
+            specs.append(sp)
+        recs = [P.encode(sp) for sp in specs]
+        if any(not (5 <= len(r) <= 260) for r in recs):
+            continue
+        raw = [r.hex() for r in recs]
+        spec_list = list(specs)
+        if rep % 5 == 4:                      # a known-type record cut short: the parse error must come through
+            cut = bytes(recs[1][:4]) + bytes([3]) + bytes(recs[1][5:8])
+            raw[1] = cut.hex()
+            spec_list[1] = None
+        store = stores[rep % 2]
+        lim = rng.choice([255, 20, 16, 9])
+        plan = [] if rep % 3 else [('none',)] * rng.randrange(1, 9) + [rng.choice([('cancel',), ('code', 0xC3), ('code', 0xCE)])]
+        base = {'repo': raw if store == 'repo' else [], 'dev': raw if store == 'dev' else [], 'limit': lim, 'plan': plan,
+                'store': store, 'resv': 'none', 'specs': spec_list}
+        case(dict(base, op='list_obj'), 'e2e list of parsed objects')
+        for k in range(4):
+            case(dict(base, op='get_obj', rid=ids[k] if k else 0), 'e2e parsed object')
     # E. absent record / empty store
     for store in stores:
         s = scenario(store, [10, 20], 255, [], pos=0)
@@ -708,7 +815,7 @@ def run(ctx):
         e[store] = []
         case(e, 'empty store')
 
-    failing, errors = C.coq_cases('C11', 'Lib.Prog Model.SdrIO Corr.C11', terms, shard=120 if q else 60)
+    failing, errors = C.coq_cases('C11', 'Lib.Prog Model.SdrIO Model.SdrE2E Corr.C11', terms, shard=120 if q else 60)
     res.mismatches = [{'case': meta[i], 'term': terms[i][:3000]} for i in failing[:50]]
     res.corr_errors = errors
     res.evaluations = len(terms)
@@ -719,7 +826,8 @@ def run(ctx):
                 '(cancellation / 0xC3 / 0xCE / raised node-busy) at every request index of selected reads; random plans '
                 'with up to 4 faults incl. other codes; lists of 1..12 (thorough ..60) records with a cancellation / code at '
                 'request indices; 2 / 3 / 4 consecutive refusals (cancellation, 0xC3, 0xCE combinations) of the same chunk request at '
-                'Get indices of reads and lists; absent record, empty store; both stores; with/without caller reservation (valid, stale). '
+                'Get indices of reads and lists; end to end: 4-record stores of every parsed record kind (C16 encoder) read as objects and '
+                'listed, every attribute compared, one record cut short; absent record, empty store; both stores; with/without caller reservation (valid, stale). '
                 'Compared per case: every request, every sleep, outcome (model replayed in Coq on the recorded replies) and '
                 'the Gallina device on the recorded requests. History stage (run first): listings and reads in a row on one '
                 'Ipmi object and on later created objects against fresh devices with restarting / small reservation counters, '
